@@ -167,6 +167,7 @@ def run_check(check, tier, seed, budget_s=None, workers=None, nplans=None, selft
     violations = []
     known_hits = {}
     harness = []
+    timed_out = []
     discarded = []
     evaluations = 0
     samples = []
@@ -208,6 +209,9 @@ def run_check(check, tier, seed, budget_s=None, workers=None, nplans=None, selft
                     except HarnessError as he:
                         if he.kind == "discard":
                             discarded.append(i)
+                        elif he.kind == "timeout":
+                            # a plan that needs more than its CPU-time bound is not judged (counted below)
+                            timed_out.append(i)
                         else:
                             harness.append({"plan": i, "kind": he.kind, "detail": he.detail[-1500:]})
                         continue
@@ -297,6 +301,10 @@ def run_check(check, tier, seed, budget_s=None, workers=None, nplans=None, selft
     cov["zygotes_spawned"] = spawned
     cov["harness_problems"] = harness[:5]
     cov["plans_discarded_for_workload_bound"] = len(discarded)
+    cov["plans_discarded_for_cpu_time_bound"] = len(timed_out)
+    if len(timed_out) > max(3, 0.01 * (acc.get("plans", 0) + len(timed_out))):
+        harness.append({"plan": timed_out[0], "kind": "timeout",
+                        "detail": f"{len(timed_out)} plans exceeded their CPU-time bound (plans {timed_out[:6]})"})
     if len(discarded) > max(3, 0.2 * (acc.get("plans", 0) + len(discarded))):
         harness.append({"plan": -1, "kind": "too-many-discards",
                         "detail": f"{len(discarded)} plans exceeded the workload bound"})
